@@ -58,18 +58,23 @@ class W(CombinatorialClass):
 
     COMPRESS = False
 
-    def __init__(self, prefix, patterns, alphabet, just_prefix=False, tracked=()):
+    def __init__(self, prefix, patterns, alphabet, just_prefix=False, tracked=(), start_set=None):
         self.alphabet = tuple(sorted(set(alphabet)))
         self.prefix = Wd(prefix)
         self.patterns = tuple(sorted(set(tuple(p) for p in patterns)))
         self.just_prefix = bool(just_prefix)
         self.tracked = tuple(tracked)
+        # start_set: if not None, a non-empty word must start with one of these letters
+        # (only used with an empty prefix; produced by SplitZeros)
+        self.start_set = None if start_set is None or len(self.prefix) > 0 or self.just_prefix else tuple(sorted(set(start_set)))
         assert all(l in self.alphabet for l in self.prefix), "prefix not over alphabet"
         assert all(len(p) >= 1 for p in self.patterns)
 
     # -- identity --------------------------------------------------------
     def key(self):
-        return (self.prefix, self.patterns, self.alphabet, self.just_prefix, self.tracked)
+        if self.start_set is None:
+            return (self.prefix, self.patterns, self.alphabet, self.just_prefix, self.tracked)
+        return (self.prefix, self.patterns, self.alphabet, self.just_prefix, self.tracked, self.start_set)
 
     def __eq__(self, other):
         return type(other) is type(self) and self.key() == other.key()
@@ -78,7 +83,8 @@ class W(CombinatorialClass):
         return hash(self.key())
 
     def __repr__(self):
-        return f"{type(self).__name__}({tuple(self.prefix)}, {self.patterns}, {self.alphabet}, {self.just_prefix}, {self.tracked})"
+        extra = "" if self.start_set is None else f", start_set={self.start_set}"
+        return f"{type(self).__name__}({tuple(self.prefix)}, {self.patterns}, {self.alphabet}, {self.just_prefix}, {self.tracked}{extra})"
 
     def __str__(self):
         return repr(self)
@@ -90,6 +96,7 @@ class W(CombinatorialClass):
             alphabet=self.alphabet,
             just_prefix=self.just_prefix,
             tracked=self.tracked,
+            start_set=self.start_set,
         )
         d.update(kw)
         return type(self)(**d)
@@ -102,12 +109,13 @@ class W(CombinatorialClass):
             alphabet=list(self.alphabet),
             just_prefix=int(self.just_prefix),
             tracked=list(self.tracked),
+            start_set=None if self.start_set is None else list(self.start_set),
         )
         return d
 
     @classmethod
     def from_dict(cls, d):
-        return cls(d["prefix"], d["patterns"], d["alphabet"], bool(d["just_prefix"]), d["tracked"])
+        return cls(d["prefix"], d["patterns"], d["alphabet"], bool(d["just_prefix"]), d["tracked"], d.get("start_set"))
 
     # -- what the engine needs -------------------------------------------
     def is_empty(self):
@@ -155,8 +163,7 @@ class WC(W):
     @classmethod
     def from_bytes(cls, b):
         # pylint: disable=eval-used
-        prefix, patterns, alphabet, jp, tracked = eval(b.decode(), {"__builtins__": {}}, {})
-        return cls(prefix, patterns, alphabet, jp, tracked)
+        return cls(*eval(b.decode(), {"__builtins__": {}}, {}))
 
 
 # ---------------------------------------------------------------------------
@@ -169,7 +176,7 @@ _MAX_CACHE = 200000
 
 def truth_objects(c, n):
     """All words of the class of length n, by brute force, in lexicographic order."""
-    k = (c.prefix, c.patterns, c.alphabet, c.just_prefix, n)
+    k = (c.prefix, c.patterns, c.alphabet, c.just_prefix, n, c.start_set)
     res = _OBJ_CACHE.get(k)
     if res is None:
         res = []
@@ -180,6 +187,8 @@ def truth_objects(c, n):
         elif n >= lp:
             for tail in product(c.alphabet, repeat=n - lp):
                 w = Wd(tuple(c.prefix) + tail)
+                if c.start_set is not None and w and w[0] not in c.start_set:
+                    continue
                 if not any(_contains(w, p) for p in c.patterns):
                     res.append(w)
         if len(_OBJ_CACHE) > _MAX_CACHE:
@@ -265,24 +274,35 @@ def _ident(c, children):
 class Expand(MaskMixin, DisjointUnionStrategy):
     """W(p) = {p v : |v| < d}  +  sum over |u| = d of W(p u)."""
 
-    def __init__(self, d=1, mask=None, lazy=False):
+    def __init__(self, d=1, mask=None, lazy=False, drop=False):
         super().__init__(ignore_parent=False, inferrable=True, possibly_empty=True, workable=True)
         self.d = d
         self.mask = mask
         self.lazy = lazy
+        # drop: an atom child in which no tracked letter occurs carries no statistics
+        # (the parent's statistics are then unmapped on that child and must be zero there)
+        self.drop = drop
 
     def _args_repr(self):
-        return f"d={self.d}"
+        return f"d={self.d}" + (",drop" if self.drop else "")
+
+    def _atom(self, c, word):
+        if self.drop and c.tracked and not any(l in word for l in c.tracked):
+            return c.replace(prefix=word, just_prefix=True, tracked=(), start_set=None)
+        return c.replace(prefix=word, just_prefix=True, start_set=None)
 
     def decomposition_function(self, c):
         if c.just_prefix or c.is_empty() or self.masked(c):
             return None
+        ok = lambda v: c.start_set is None or not v or len(c.prefix) > 0 or v[0] in c.start_set  # noqa: E731
         children = []
         for l in range(self.d):
             for v in product(c.alphabet, repeat=l):
-                children.append(c.replace(prefix=tuple(c.prefix) + v, just_prefix=True))
+                if ok(v):
+                    children.append(self._atom(c, tuple(c.prefix) + v))
         for u in product(c.alphabet, repeat=self.d):
-            children.append(c.replace(prefix=tuple(c.prefix) + u))
+            if ok(u):
+                children.append(c.replace(prefix=tuple(c.prefix) + u, start_set=None))
         return tuple(children)
 
     def extra_parameters(self, comb_class, children=None):
@@ -290,7 +310,7 @@ class Expand(MaskMixin, DisjointUnionStrategy):
             children = self.decomposition_function(comb_class)
             if children is None:
                 raise StrategyDoesNotApply("Strategy does not apply")
-        return _ident(comb_class, children)
+        return tuple({k: k for k in comb_class.extra_parameters} if ch.tracked == comb_class.tracked else {} for ch in children)
 
     def forward_map(self, comb_class, obj, children=None):
         if children is None:
@@ -309,11 +329,12 @@ class Expand(MaskMixin, DisjointUnionStrategy):
     def to_jsonable(self):
         d = self._base_json()
         d["d"] = self.d
+        d["drop"] = self.drop
         return d
 
     @classmethod
     def from_dict(cls, d):
-        return cls(d["d"], d.get("mask"), d.get("lazy", False))
+        return cls(d["d"], d.get("mask"), d.get("lazy", False), d.get("drop", False))
 
 
 class RemoveFront(MaskMixin, CartesianProductStrategy):
@@ -365,6 +386,52 @@ class RemoveFront(MaskMixin, CartesianProductStrategy):
             children = self.decomposition_function(comb_class)
         s = len(children[0].prefix)
         return (Wd(obj[:s]), Wd(obj[s:]))
+
+    def to_jsonable(self):
+        return self._base_json()
+
+    @classmethod
+    def from_dict(cls, d):
+        return cls(d.get("mask"), d.get("lazy", False))
+
+
+class SplitZeros(MaskMixin, CartesianProductStrategy):
+    """All words over an alphabet containing 0 (no patterns, no prefix) =
+    (words over {0}) x (words that are empty or start with another letter).
+    A product of two classes neither of which is an atom."""
+
+    def __init__(self, mask=None, lazy=False):
+        super().__init__(ignore_parent=False, inferrable=False, possibly_empty=False, workable=True)
+        self.mask = mask
+        self.lazy = lazy
+
+    def _args_repr(self):
+        return ""
+
+    def decomposition_function(self, c):
+        if c.just_prefix or c.prefix or c.patterns or c.start_set is not None or self.masked(c):
+            return None
+        if 0 not in c.alphabet or len(c.alphabet) < 2:
+            return None
+        zeros = c.replace(alphabet=(0,))
+        rest = c.replace(start_set=tuple(l for l in c.alphabet if l != 0))
+        return (zeros, rest)
+
+    def extra_parameters(self, comb_class, children=None):
+        if children is None:
+            children = self.decomposition_function(comb_class)
+            if children is None:
+                raise StrategyDoesNotApply("Strategy does not apply")
+        return _ident(comb_class, children)
+
+    def backward_map(self, comb_class, objs, children=None):
+        yield Wd(tuple(objs[0]) + tuple(objs[1]))
+
+    def forward_map(self, comb_class, obj, children=None):
+        k = 0
+        while k < len(obj) and obj[k] == 0:
+            k += 1
+        return (Wd(obj[:k]), Wd(obj[k:]))
 
     def to_jsonable(self):
         return self._base_json()
@@ -518,6 +585,7 @@ class LetterPermutation(MaskMixin, SymmetryStrategy):
             patterns=tuple(tuple(self._m(l) for l in p) for p in c.patterns),
             alphabet=tuple(self._m(l) for l in c.alphabet),
             tracked=tuple(self._m(l) for l in c.tracked),
+            start_set=None if c.start_set is None else tuple(self._m(l) for l in c.start_set),
         )
 
     def decomposition_function(self, c):
@@ -720,7 +788,8 @@ class ExpandFactory(StrategyFactory):
 # ---------------------------------------------------------------------------
 
 _STRATS = {
-    "Expand": lambda s: Expand(s.get("d", 1), _mask(s), s.get("lazy", False)),
+    "Expand": lambda s: Expand(s.get("d", 1), _mask(s), s.get("lazy", False), s.get("drop", False)),
+    "SplitZeros": lambda s: SplitZeros(_mask(s), s.get("lazy", False)),
     "RemoveFront": lambda s: RemoveFront(_mask(s), s.get("lazy", False)),
     "ReducePatterns": lambda s: ReducePatterns(_mask(s), s.get("lazy", False), two_way=s.get("two_way", True), ignore_parent=s.get("ignore_parent", True)),
     "DropDeadStatistic": lambda s: DropDeadStatistic(_mask(s), s.get("lazy", False), two_way=s.get("two_way", True), ignore_parent=s.get("ignore_parent", True)),
@@ -771,6 +840,7 @@ def make_class(spec):
         tuple(spec["alphabet"]),
         bool(spec.get("just_prefix", False)),
         tuple(spec.get("tracked", ())),
+        spec.get("start_set"),
     )
 
 
